@@ -196,5 +196,37 @@ func (c *Ctx) crashFamily() *simpleVerdict {
 			noteSample("CRASH.bounded/evaluate-with-default-operations", e)
 		}
 	}
+	// the text entry point of the calculator (automatic variables on and off): setting and evaluating texts
+	// with empty, unterminated and unusual lexemes; then the same after the variables were cleared
+	texts := []string{`""`, `"" + 1`, `Abs("")`, `''`, `'`, `"`, `"a`, `'a' + "b"`, `x`, `NOT x`, `x AND y`, `x [ 0 ]`, `Array(x, y)[0]`, `x + y * 2`, `-x`, `x IS NULL`,
+		`f(`, `)`, `1 +`, `a b`, `.`, `-`, `1e`, `/*`, `a /* c`, "\u00a0", "\uffff", "😀", "a\x00b", `1.5.5`, `0x`, `a[`, `a[]`, `Min()`, `If(1)`, `Date()`, `TimeSpan(1,2,3,4,5)`, `Choose(0)`, `Choose(9, 1)`}
+	for _, auto := range []bool{true, false} {
+		for _, e := range texts {
+			m.steps = 0
+			v.runs++
+			c2, out := m.Call(cctor)
+			if out.kind != "ok" {
+				continue
+			}
+			callM(c, m, ct, "SetAutoVariables", c2, auto)
+			callM(c, m, ct, "SetExpression", c2, e)
+			_, eo := callM(c, m, ct, "Evaluate", c2)
+			crashFamKinds[eo.kind]++
+			// clearing the values of the variables leaves them evaluable (as nulls)
+			if dv, out := callM(c, m, ct, "DefaultVariables", c2); out.kind == "ok" {
+				if dvi, ok := dv.(mIface); ok {
+					callM(c, m, dvi.t, "ClearValues", dvi.v)
+					_, eo := callM(c, m, ct, "Evaluate", c2)
+					crashFamKinds[eo.kind]++
+					callM(c, m, dvi.t, "Clear", dvi.v)
+					_, eo = callM(c, m, ct, "Evaluate", c2)
+					crashFamKinds[eo.kind]++
+				}
+			}
+			callM(c, m, ct, "Clear", c2)
+			_, eo = callM(c, m, ct, "Evaluate", c2)
+			crashFamKinds[eo.kind]++
+		}
+	}
 	return v
 }
